@@ -189,7 +189,7 @@ def native_replay(sc, test, input_hex, log):
             "tail": out[-1500:]}
 
 
-def run_harnesses(res, cfg, sc, tier):
+def run_harnesses(res, cfg, sc, tier, overlay_done=False):
     table = load_table()
     want = []
     demoted = set(d["fn"] for d in getattr(res, "demoted", []))
@@ -202,10 +202,25 @@ def run_harnesses(res, cfg, sc, tier):
             want.append(h)
         elif t in ("changed", "thorough", "fallback"):
             res.trusted.append("not re-run in the quick tier (text of the covered function(s) unchanged since the committed baseline): Kani harness %s - %s" % (h["name"], h.get("contract", "")))
+    # functions already refuted by a native search on this run: their fallback harnesses add nothing
+    refuted = set()
+    for o in res.obligations:
+        if o.get("engine") == "native-search" and o.get("status") == "failed":
+            refuted |= set(o.get("covers") or [])
+    keep = []
+    for h in want:
+        t = h.get("tier", "quick")
+        cov = set(h.get("covers", []))
+        if t in ("fallback", "changed") and tier != "thorough" and cov and (cov & (demoted | getattr(res, "changed_fns", set()))) and (cov & (demoted | getattr(res, "changed_fns", set()))) <= refuted:
+            res.assumptions.append("Kani harness %s skipped: the changed function(s) it covers are already refuted by a native search on this run" % h["name"])
+            continue
+        keep.append(h)
+    want = keep
     if not want:
         return False
-    ov = overlay(sc)
-    res.log["kani_overlay"] = ov
+    if not overlay_done:
+        ov = overlay(sc)
+        res.log["kani_overlay"] = ov
     # group by stubbing flag; heavy harnesses run alone in parallel groups via -j
     jobs = int(os.environ.get("VERIF_JOBS", "12"))
     results = {}
@@ -273,7 +288,7 @@ def run_searches(res, cfg, sc, tier, overlay_done):
     """Bounded native searches (labelled bounded, never counted as proved) for functions outside both verifiers' reach."""
     path = os.path.join(KDIR, "searches.json")
     if not os.path.exists(path):
-        return
+        return overlay_done
     demoted = set(d["fn"] for d in getattr(res, "demoted", []))
     changed = getattr(res, "changed_fns", set())
     want = []
@@ -284,9 +299,10 @@ def run_searches(res, cfg, sc, tier, overlay_done):
         if t == "quick" or tier == "thorough" or ((demoted | changed) & set(h.get("covers", []))):
             want.append(h)
     if not want:
-        return
+        return overlay_done
     if not overlay_done:
         overlay(sc)
+        overlay_done = True
     for h in want:
         env_count = {"VERIF_SEARCH_COUNT": "1000000" if tier == "thorough" else "10000", "VERIF_SEED": str(res.seed)}
         os.environ.update(env_count)
@@ -311,6 +327,7 @@ def run_searches(res, cfg, sc, tier, overlay_done):
         res.obligations.append(o)
     res.functions.setdefault("native_search", [])
     res.functions["native_search"] += [h["name"] for h in want]
+    return overlay_done
 
 
 def warm(sc, log):
